@@ -349,10 +349,15 @@ impl LocalPeerService {
                     }
                 }
             }
-            let acquere = acquired_lock.lock().await;
+            // Rooms being synchronised are unlocked by their own task when it ends (it always does):
+            // unlocking them here as well released the lock twice, the second time on behalf of
+            // whoever had been granted the room in between.
+            // What is released here are the grants still in flight: sent by the lock service but
+            // not yet handed to a synchronisation task, they would otherwise stay locked forever.
+            lock_receiver.close();
             let mut rooms: Vec<Uid> = Vec::new();
-            for room in acquere.iter() {
-                rooms.push(*room);
+            while let Ok(room) = lock_receiver.try_recv() {
+                rooms.push(room);
             }
             Self::cleanup(&lock_service, rooms).await;
             let key = remote_verifying_key.lock().await;
